@@ -145,7 +145,10 @@ def to_smt2(assertions):
     s = z3.Solver()
     for a in assertions:
         s.add(a)
-    return '(set-logic ALL)\n' + s.to_smt2()
+    txt = s.to_smt2()
+    # z3's simplifier splits seq.nth into internal in-range / out-of-range symbols; both are seq.nth for other solvers
+    txt = txt.replace('seq.nth_i', 'seq.nth').replace('seq.nth_u', 'seq.nth')
+    return '(set-logic ALL)\n' + txt
 
 
 def check_cvc5(assertions, timeout_ms):
